@@ -291,6 +291,9 @@ def range_protocols(**kwargs) -> LStr:
     for proto in protocols:
         ace_o = Ace(line, platform=platform, protocol_nr=protocol_nr)
         ace_o._protocol = Protocol(str(proto), platform=platform, protocol_nr=protocol_nr)
+        if ace_o.protocol.name not in ["tcp", "udp"]:
+            ace_o.srcport.line = ""  # ports exist for tcp/udp only
+            ace_o.dstport.line = ""
         ace_o.platform = platform
         aces_.append(ace_o)
     return [o.line for o in aces_]
